@@ -274,7 +274,11 @@ impl SubqueryExecutor {
         // Run the async code reusing the existing runtime when possible
         let batches = run_subquery_blocking(physical)?;
 
-        if batches.is_empty() || batches[0].num_rows() == 0 {
+        // The result may arrive as several record batches (one per scan batch,
+        // empty ones included): the row count is the TOTAL over all of them,
+        // and the single row lives in the first non-empty batch.
+        let total_rows: usize = batches.iter().map(|b| b.num_rows()).sum();
+        if total_rows == 0 {
             let result = ScalarValue::Null;
             self.inner
                 .cache
@@ -283,13 +287,16 @@ impl SubqueryExecutor {
             return Ok(result);
         }
 
-        let batch = &batches[0];
-        if batch.num_rows() != 1 {
+        if total_rows != 1 {
             return Err(QueryError::Execution(format!(
                 "Scalar subquery returned {} rows, expected 1",
-                batch.num_rows()
+                total_rows
             )));
         }
+        let batch = batches
+            .iter()
+            .find(|b| b.num_rows() > 0)
+            .expect("total_rows == 1 implies a non-empty batch");
 
         let column = batch.column(0);
         let scalar = array_ref_to_scalar(column, 0)?;
